@@ -126,7 +126,7 @@ def formats_obs_term(case, st, val):
 
 
 def formats_tie(n_quick=150, n_thorough=2500):
-    prof = dict(PROFILES['C03'], p_window=0.0)
+    prof = dict(PROFILES['C03'], p_window=0.0, p_include=0.6, p_org_before_include=0.6)
     prof['w'] = dict(prof['w'], fill=8, mute=6, align=4, org=5, memzone=4)
 
     def gen(rng, tier):
@@ -211,6 +211,49 @@ def _isa_determinism_check(case):
     return _determinism_check(case)
 
 
+DOTTED_ISA = '''
+description: verif dotted enumeration keys
+general:
+  address_size: 16
+  endian: big
+  registers: [a, b]
+  identifier: {name: verif-dot, version: "1.0.0"}
+operand_sets:
+  ports:
+    operand_values:
+      port:
+        type: enumeration
+        bytecode: {size: 4, value_dict: {KEYS_BC}}
+        argument: {size: 8, byte_align: true, value_dict: {KEYS_ARG}}
+  regs:
+    operand_values:
+      ra: {type: register, register: a, bytecode: {value: 1, size: 4}}
+      rb: {type: register, register: b, bytecode: {value: 2, size: 4}}
+instructions:
+  out:
+    bytecode: {value: 14, size: 4}
+    operands: {count: 1, operand_sets: {list: [ports]}}
+  mov:
+    bytecode: {value: 3, size: 4}
+    operands: {count: 2, operand_sets: {list: [regs, regs]}}
+'''
+
+
+def dotted_cases(rng, n):
+    out = []
+    for _ in range(n):
+        base = rng.choice(['uart', 'pio', 'tmr'])
+        keys = [base + '.tx', base + '.rx', base, base + '.tx.hi']
+        rng.shuffle(keys)
+        bc = ', '.join(f'"{k}": {i}' for i, k in enumerate(keys))
+        ar = ', '.join(f'"{k}": {0x40 + i}' for i, k in enumerate(keys))
+        stmts = [['other_text', f'out {rng.choice(keys)}'] for _ in range(rng.randint(1, 4))] + [['other_text', 'mov a, b']]
+        out.append({'cfg': {'addr_bits': 16, 'cli': []}, 'isa_yaml': DOTTED_ISA.replace('KEYS_BC', bc).replace('KEYS_ARG', ar),
+                    'files': [{'name': 'main.asm', 'dir': 'src', 'stmts': stmts}], 'include_dirs': [], 'extra_files': [],
+                    'opts': {'start': 0, 'end': None, 'fill': 0}, 'det_seed': rng.randrange(1 << 30), 'det_runs': 8, 'isa': {'macros': {}}})
+    return out
+
+
 def isa_determinism_oracle(n_quick=25, n_thorough=400):
     def gen(rng, tier):
         from . import sysisa
@@ -220,7 +263,7 @@ def isa_determinism_oracle(n_quick=25, n_thorough=400):
             c['det_seed'] = rng.randrange(1 << 30)
             c['det_runs'] = 4 if tier == 'quick' else 10
             out.append(c)
-        return out
+        return out + dotted_cases(rng, 12 if tier == 'quick' else 150)
     return Oracle(name='determinism_isa', gen=gen, check=_isa_determinism_check, nontrivial=lambda c: True,
                   classify=lambda c: 'isa', timeout=600)
 
